@@ -1,4 +1,4 @@
-import CalicoVerif.Proofs.C31Base
+import CalicoVerif.Proofs.C31Chan
 /-! C31 — helper lemmas (frames, bursts, handlers). -/
 namespace CalicoVerif.C31
 
@@ -83,5 +83,480 @@ theorem frame_inSync (v : View) (ms : List Msg) (h : ∀ m ∈ ms, m.kind ≠ .s
     rw [applyMsgs_cons, ih _ (fun m' hm' => h m' (List.mem_cons_of_mem _ hm'))]
     have := h m (by simp)
     cases m <;> simp_all [applyMsg, Msg.kind]
+
+/-! ### bursts -/
+
+def setOf (ms : List Nat) : Nat → Bool := fun m => ms.contains m
+
+/-- effect of `doAdd` (B2) -/
+theorem ipAdd_view {p : Proc} {ids : List Nat} {ms : List Msg} (h : ipAddMsgs p ids = some ms) (v : View) :
+    (∀ m ∈ ms, m.kind = .ip) ∧
+    ∀ x, (applyMsgs v ms).ipsets x = if x ∈ ids then (p.ipsets.get x).map setOf else v.ipsets x := by
+  induction ids generalizing ms v with
+  | nil => simp [ipAddMsgs] at h; subst h; simp [applyMsgs]
+  | cons id ids ih =>
+    simp only [ipAddMsgs] at h
+    cases h1 : p.ipsets.get id with
+    | none => simp only [h1] at h; cases h
+    | some mem =>
+      cases h2 : ipAddMsgs p ids with
+      | none => simp only [h1, h2] at h; cases h
+      | some rest =>
+        simp only [h1, h2, Option.some.injEq] at h
+        subst h
+        obtain ⟨k, e⟩ := ih h2 (applyMsg v (Msg.ipUpd id mem))
+        refine ⟨?_, ?_⟩
+        · intro m hm
+          rcases List.mem_cons.1 hm with rfl | hm
+          · rfl
+          · exact k m hm
+        · intro x
+          rw [applyMsgs_cons, e x]
+          by_cases hx : x ∈ ids
+          · simp [hx]
+          · by_cases hxi : x = id
+            · subst hxi; simp [hx, applyMsg, upd, h1]; funext m; simp [setOf]
+            · simp [hx, hxi, applyMsg, upd]
+
+theorem ipAddMsgs_isSome {p : Proc} {ids : List Nat} {ms : List Msg} (h : ipAddMsgs p ids = some ms) :
+    ∀ x ∈ ids, (p.ipsets.get x).isSome := by
+  induction ids generalizing ms with
+  | nil => simp
+  | cons id ids ih =>
+    simp only [ipAddMsgs] at h
+    cases h1 : p.ipsets.get id with
+    | none => simp only [h1] at h; cases h
+    | some mem =>
+      cases h2 : ipAddMsgs p ids with
+      | none => simp only [h1, h2] at h; cases h
+      | some rest =>
+        intro x hx
+        rcases List.mem_cons.1 hx with rfl | hx
+        · simp [h1]
+        · exact ih h2 x hx
+
+/-- effect of `syncAddedPolicies` (B3) -/
+theorem syncAdded_pol_view {m : AMap Rules} {ids synced s' : List Nat} {ms : List Msg}
+    (h : syncAdded m Msg.polUpd ids synced = some (s', ms)) (v : View) :
+    (∀ x ∈ ms, x.kind = .pol) ∧ (∀ id, id ∈ s' ↔ id ∈ synced ∨ id ∈ ids) ∧
+    ∀ id, (applyMsgs v ms).pols id = if id ∈ s' ∧ id ∉ synced then m.get id else v.pols id := by
+  induction ids generalizing synced s' ms v with
+  | nil => simp [syncAdded] at h; obtain ⟨rfl, rfl⟩ := h; simp [applyMsgs]
+  | cons i ids ih =>
+    simp only [syncAdded, List.contains_iff_mem] at h
+    by_cases hi : i ∈ synced
+    · simp only [hi, if_true] at h
+      obtain ⟨a, b, c⟩ := ih h v
+      refine ⟨a, fun id => ?_, c⟩
+      rw [b id]; simp only [List.mem_cons]
+      constructor
+      · rintro (h1 | h1); exact Or.inl h1; exact Or.inr (Or.inr h1)
+      · rintro (h1 | rfl | h1); exact Or.inl h1; exact Or.inl hi; exact Or.inr h1
+    · simp only [hi, if_false] at h
+      cases h1 : m.get i with
+      | none => simp only [h1] at h; cases h
+      | some r =>
+        simp only [h1] at h
+        cases h2 : syncAdded m Msg.polUpd ids (i :: synced) with
+        | none => simp only [h2] at h; cases h
+        | some res =>
+          obtain ⟨s2, ms2⟩ := res
+          simp only [h2, Option.some.injEq, Prod.mk.injEq] at h
+          obtain ⟨rfl, rfl⟩ := h
+          obtain ⟨a, b, c⟩ := ih h2 (applyMsg v (Msg.polUpd i r))
+          refine ⟨?_, fun id => ?_, fun id => ?_⟩
+          · intro x hx
+            rcases List.mem_cons.1 hx with rfl | hx
+            · rfl
+            · exact a x hx
+          · rw [b id]; simp only [List.mem_cons]
+            constructor
+            · rintro ((rfl | h1) | h1); exact Or.inr (Or.inl rfl); exact Or.inl h1; exact Or.inr (Or.inr h1)
+            · rintro (h1 | rfl | h1); exact Or.inl (Or.inr h1); exact Or.inl (Or.inl rfl); exact Or.inr h1
+          · rw [applyMsgs_cons, c id]
+            have hb := b id
+            simp only [List.mem_cons] at hb ⊢
+            by_cases hid : id = i
+            · subst hid
+              have : id ∈ s2 := hb.2 (Or.inl (Or.inl rfl))
+              simp [this, hi, applyMsg, upd, h1]
+            · simp only [hid, false_or, applyMsg, upd, if_false]
+
+/-- effect of `syncAddedProfiles` (B3) -/
+theorem syncAdded_prof_view {m : AMap Rules} {ids synced s' : List Nat} {ms : List Msg}
+    (h : syncAdded m Msg.profUpd ids synced = some (s', ms)) (v : View) :
+    (∀ x ∈ ms, x.kind = .prof) ∧ (∀ id, id ∈ s' ↔ id ∈ synced ∨ id ∈ ids) ∧
+    ∀ id, (applyMsgs v ms).profs id = if id ∈ s' ∧ id ∉ synced then m.get id else v.profs id := by
+  induction ids generalizing synced s' ms v with
+  | nil => simp [syncAdded] at h; obtain ⟨rfl, rfl⟩ := h; simp [applyMsgs]
+  | cons i ids ih =>
+    simp only [syncAdded, List.contains_iff_mem] at h
+    by_cases hi : i ∈ synced
+    · simp only [hi, if_true] at h
+      obtain ⟨a, b, c⟩ := ih h v
+      refine ⟨a, fun id => ?_, c⟩
+      rw [b id]; simp only [List.mem_cons]
+      constructor
+      · rintro (h1 | h1); exact Or.inl h1; exact Or.inr (Or.inr h1)
+      · rintro (h1 | rfl | h1); exact Or.inl h1; exact Or.inl hi; exact Or.inr h1
+    · simp only [hi, if_false] at h
+      cases h1 : m.get i with
+      | none => simp only [h1] at h; cases h
+      | some r =>
+        simp only [h1] at h
+        cases h2 : syncAdded m Msg.profUpd ids (i :: synced) with
+        | none => simp only [h2] at h; cases h
+        | some res =>
+          obtain ⟨s2, ms2⟩ := res
+          simp only [h2, Option.some.injEq, Prod.mk.injEq] at h
+          obtain ⟨rfl, rfl⟩ := h
+          obtain ⟨a, b, c⟩ := ih h2 (applyMsg v (Msg.profUpd i r))
+          refine ⟨?_, fun id => ?_, fun id => ?_⟩
+          · intro x hx
+            rcases List.mem_cons.1 hx with rfl | hx
+            · rfl
+            · exact a x hx
+          · rw [b id]; simp only [List.mem_cons]
+            constructor
+            · rintro ((rfl | h1) | h1); exact Or.inr (Or.inl rfl); exact Or.inl h1; exact Or.inr (Or.inr h1)
+            · rintro (h1 | rfl | h1); exact Or.inl (Or.inr h1); exact Or.inl (Or.inl rfl); exact Or.inr h1
+          · rw [applyMsgs_cons, c id]
+            have hb := b id
+            simp only [List.mem_cons] at hb ⊢
+            by_cases hid : id = i
+            · subst hid
+              have : id ∈ s2 := hb.2 (Or.inl (Or.inl rfl))
+              simp [this, hi, applyMsg, upd, h1]
+            · simp only [hid, false_or, applyMsg, upd, if_false]
+
+/-- result of the loop of `syncRemoved*` (B4) -/
+theorem syncRemovedLoop_spec {ids old new old' new' : List Nat} (h : syncRemovedLoop ids old new = some (old', new')) :
+    (∀ id, id ∈ new' ↔ id ∈ new ∨ id ∈ ids) ∧ (∀ id, id ∈ old' ↔ id ∈ old ∧ id ∉ ids) ∧ (∀ id ∈ ids, id ∈ old) := by
+  induction ids generalizing old new with
+  | nil => simp [syncRemovedLoop] at h; obtain ⟨rfl, rfl⟩ := h; simp
+  | cons i ids ih =>
+    simp only [syncRemovedLoop, List.contains_iff_mem] at h
+    by_cases hi : i ∈ old
+    · simp only [hi, if_true] at h
+      obtain ⟨a, b, c⟩ := ih h
+      refine ⟨fun id => ?_, fun id => ?_, fun id hid => ?_⟩
+      · rw [a id]; simp only [List.mem_cons]
+        constructor
+        · rintro ((rfl | h1) | h1); exact Or.inr (Or.inl rfl); exact Or.inl h1; exact Or.inr (Or.inr h1)
+        · rintro (h1 | rfl | h1); exact Or.inl (Or.inr h1); exact Or.inl (Or.inl rfl); exact Or.inr h1
+      · rw [b id]; simp only [List.mem_filter, List.mem_cons, bne_iff_ne, ne_eq, not_or]
+        constructor
+        · rintro ⟨⟨h1, h2⟩, h3⟩; exact ⟨h1, h2, h3⟩
+        · rintro ⟨h1, h2, h3⟩; exact ⟨⟨h1, h2⟩, h3⟩
+      · rcases List.mem_cons.1 hid with rfl | hid
+        · exact hi
+        · have := c id hid
+          simp only [List.mem_filter] at this
+          exact this.1
+    · simp only [hi, if_false] at h; cases h
+
+theorem polRm_view (ids : List Nat) (v : View) :
+    ∀ id, (applyMsgs v (ids.map Msg.polRm)).pols id = if id ∈ ids then none else v.pols id := by
+  induction ids generalizing v with
+  | nil => simp [applyMsgs]
+  | cons i ids ih =>
+    intro id
+    rw [List.map_cons, applyMsgs_cons, ih]
+    by_cases h1 : id ∈ ids
+    · simp [h1]
+    · by_cases h2 : id = i <;> simp [h1, h2, applyMsg, upd]
+
+theorem profRm_view (ids : List Nat) (v : View) :
+    ∀ id, (applyMsgs v (ids.map Msg.profRm)).profs id = if id ∈ ids then none else v.profs id := by
+  induction ids generalizing v with
+  | nil => simp [applyMsgs]
+  | cons i ids ih =>
+    intro id
+    rw [List.map_cons, applyMsgs_cons, ih]
+    by_cases h1 : id ∈ ids
+    · simp [h1]
+    · by_cases h2 : id = i <;> simp [h1, h2, applyMsg, upd]
+
+theorem ipRm_view (ids : List Nat) (v : View) :
+    ∀ id, (applyMsgs v (ids.map Msg.ipRm)).ipsets id = if id ∈ ids then none else v.ipsets id := by
+  induction ids generalizing v with
+  | nil => simp [applyMsgs]
+  | cons i ids ih =>
+    intro id
+    rw [List.map_cons, applyMsgs_cons, ih]
+    by_cases h1 : id ∈ ids
+    · simp [h1]
+    · by_cases h2 : id = i <;> simp [h1, h2, applyMsg, upd]
+
+theorem refsOf_mem {m : AMap Rules} {ids l : List Nat} (h : refsOf m ids = some l) (x : Nat) :
+    x ∈ l ↔ ∃ id ∈ ids, ∃ r, m.get id = some r ∧ x ∈ r.refs := by
+  induction ids generalizing l with
+  | nil => simp [refsOf] at h; subst h; simp
+  | cons i ids ih =>
+    simp only [refsOf] at h
+    cases h1 : m.get i with
+    | none => simp only [h1] at h; cases h
+    | some r =>
+      cases h2 : refsOf m ids with
+      | none => simp only [h1, h2] at h; cases h
+      | some rest =>
+        simp only [h1, h2, Option.some.injEq] at h
+        subst h
+        simp only [List.mem_append, ih h2, List.mem_cons]
+        constructor
+        · rintro (hx | ⟨id, hid, r', hr', hx⟩)
+          · exact ⟨i, Or.inl rfl, r, h1, hx⟩
+          · exact ⟨id, Or.inr hid, r', hr', hx⟩
+        · rintro ⟨id, (rfl | hid), r', hr', hx⟩
+          · rw [h1] at hr'; cases hr'; exact Or.inl hx
+          · exact Or.inr ⟨id, hid, r', hr', hx⟩
+
+theorem wantedIP_mem {p : Proc} {e : Option Endpoint} {l : List Nat} (h : wantedIP p e = some l) (x : Nat) :
+    x ∈ l ↔ neededIP p e x := by
+  unfold wantedIP at h
+  cases h1 : refsOf p.profs (epProfs e) with
+  | none => simp only [h1] at h; cases h
+  | some a =>
+    cases h2 : refsOf p.pols (epPols e) with
+    | none => simp only [h1, h2] at h; cases h
+    | some b =>
+      simp only [h1, h2, Option.some.injEq] at h
+      subst h
+      rw [mem_dedup, List.mem_append, refsOf_mem h1, refsOf_mem h2]
+      rfl
+
+/-! ### maybeSyncEndpoint -/
+
+theorem frame_kind {ms : List Msg} {k : Kind} (h : ∀ m ∈ ms, m.kind = k) (v : View) :
+    (k ≠ .ep → (applyMsgs v ms).ep = v.ep) ∧ (k ≠ .pol → (applyMsgs v ms).pols = v.pols) ∧
+    (k ≠ .prof → (applyMsgs v ms).profs = v.profs) ∧ (k ≠ .ip → (applyMsgs v ms).ipsets = v.ipsets) ∧
+    (k ≠ .sa → (applyMsgs v ms).sas = v.sas) ∧ (k ≠ .ns → (applyMsgs v ms).nss = v.nss) ∧
+    (k ≠ .sync → (applyMsgs v ms).inSync = v.inSync) :=
+  ⟨fun hk => frame_ep v ms (fun m hm => by rw [h m hm]; exact hk),
+   fun hk => frame_pols v ms (fun m hm => by rw [h m hm]; exact hk),
+   fun hk => frame_profs v ms (fun m hm => by rw [h m hm]; exact hk),
+   fun hk => frame_ipsets v ms (fun m hm => by rw [h m hm]; exact hk),
+   fun hk => frame_sas v ms (fun m hm => by rw [h m hm]; exact hk),
+   fun hk => frame_nss v ms (fun m hm => by rw [h m hm]; exact hk),
+   fun hk => frame_inSync v ms (fun m hm => by rw [h m hm]; exact hk)⟩
+
+theorem kind_map_ipRm (ids : List Nat) : ∀ m ∈ ids.map Msg.ipRm, m.kind = .ip := by
+  intro m hm; simp only [List.mem_map] at hm; obtain ⟨_, _, rfl⟩ := hm; rfl
+theorem kind_map_polRm (ids : List Nat) : ∀ m ∈ ids.map Msg.polRm, m.kind = .pol := by
+  intro m hm; simp only [List.mem_map] at hm; obtain ⟨_, _, rfl⟩ := hm; rfl
+theorem kind_map_profRm (ids : List Nat) : ∀ m ∈ ids.map Msg.profRm, m.kind = .prof := by
+  intro m hm; simp only [List.mem_map] at hm; obtain ⟨_, _, rfl⟩ := hm; rfl
+
+/-- the client's policies, profiles and IP sets are exactly the synced ones, in the Processor's latest version -/
+structure Core (p : Proc) (ei : EpInfo) (v : View) : Prop where
+  pols : ∀ id, v.pols id = if id ∈ ei.syncedPol then p.pols.get id else none
+  profs : ∀ id, v.profs id = if id ∈ ei.syncedProf then p.profs.get id else none
+  ipsets : ∀ x, v.ipsets x = if x ∈ ei.syncedIP then (p.ipsets.get x).map setOf else none
+
+/-- the synced sets are exactly what the endpoint needs -/
+structure Exact (p : Proc) (ei : EpInfo) : Prop where
+  pols : ∀ id, id ∈ ei.syncedPol ↔ id ∈ epPols ei.ep
+  profs : ∀ id, id ∈ ei.syncedProf ↔ id ∈ epProfs ei.ep
+  ipsets : ∀ x, x ∈ ei.syncedIP ↔ neededIP p ei.ep x
+
+theorem ipSync_spec {p : Proc} {ei ei1 : EpInfo} {adds dels : List Msg} (h : ipSync p ei = some (ei1, adds, dels)) (v : View) :
+    (∀ m ∈ adds, m.kind = .ip) ∧ (∀ m ∈ dels, m.kind = .ip) ∧ (∀ x, x ∈ ei1.syncedIP ↔ neededIP p ei.ep x) ∧
+    (∀ x, (applyMsgs v adds).ipsets x =
+      if x ∈ ei1.syncedIP ∧ x ∉ ei.syncedIP then (p.ipsets.get x).map setOf else v.ipsets x) ∧
+    (∀ (v' : View) x, (applyMsgs v' dels).ipsets x = if x ∈ ei.syncedIP ∧ x ∉ ei1.syncedIP then none else v'.ipsets x) ∧
+    (∀ x, x ∈ ei1.syncedIP → x ∉ ei.syncedIP → (p.ipsets.get x).isSome) := by
+  unfold ipSync at h
+  cases h1 : wantedIP p ei.ep with
+  | none => simp only [h1] at h; cases h
+  | some newS =>
+    simp only [h1] at h
+    cases h2 : ipAddMsgs p (newS.filter (fun x => !ei.syncedIP.contains x)) with
+    | none => simp only [h2] at h; cases h
+    | some adds' =>
+      simp only [h2, Option.some.injEq, Prod.mk.injEq] at h
+      obtain ⟨rfl, rfl, rfl⟩ := h
+      obtain ⟨k, e⟩ := ipAdd_view h2 v
+      refine ⟨k, kind_map_ipRm _, fun x => wantedIP_mem h1 x, fun x => ?_, fun v' x => ?_, fun x a b => ?_⟩
+      · rw [e x]; simp [List.mem_filter]
+      · rw [ipRm_view]; simp [List.mem_filter]
+      · exact ipAddMsgs_isSome h2 x (by simp [List.mem_filter]; exact ⟨a, b⟩)
+
+theorem maybeSync_core {p : Proc} {w : Nat} {ei ei' : EpInfo} {ms : List Msg} {v : View} {e : Endpoint} {c : Nat}
+    (hc : Core p ei v) (he : ei.ep = some e) (ho : ei.output = some c) (h : maybeSync p w ei = some (ei', ms)) :
+    Core p ei' (applyMsgs v ms) ∧ Exact p ei' ∧ (applyMsgs v ms).ep = some (w, e) ∧
+    (applyMsgs v ms).sas = v.sas ∧ (applyMsgs v ms).nss = v.nss ∧ (applyMsgs v ms).inSync = v.inSync ∧
+    (∀ x, x ∈ ei'.syncedIP → x ∉ ei.syncedIP → (p.ipsets.get x).isSome) := by
+  unfold maybeSync at h
+  simp only [he, ho] at h
+  cases h1 : ipSync p ei with
+  | none => simp only [h1] at h; cases h
+  | some r1 =>
+    obtain ⟨ei1, adds, dels⟩ := r1
+    have ho1 := ipSync_output h1
+    simp only [h1] at h
+    cases h2 : syncAdded p.pols Msg.polUpd e.pols ei1.syncedPol with
+    | none => simp only [h2] at h; cases h
+    | some r2 =>
+      obtain ⟨sp, polMsgs⟩ := r2
+      simp only [h2] at h
+      cases h3 : syncAdded p.profs Msg.profUpd e.profs ei1.syncedProf with
+      | none => simp only [h3] at h; cases h
+      | some r3 =>
+        obtain ⟨sf, profMsgs⟩ := r3
+        simp only [h3] at h
+        cases h4 : syncRemovedLoop e.pols sp [] with
+        | none => simp only [h4] at h; cases h
+        | some r4 =>
+          obtain ⟨oldP, newP⟩ := r4
+          cases h5 : syncRemovedLoop e.profs sf [] with
+          | none => simp only [h4, h5] at h; cases h
+          | some r5 =>
+            obtain ⟨oldF, newF⟩ := r5
+            simp only [h4, h5, Option.some.injEq, Prod.mk.injEq] at h
+            obtain ⟨rfl, rfl⟩ := h
+            -- the seven segments
+            obtain ⟨kA, kD, eIP, vA, vD, xIP⟩ := ipSync_spec h1 v
+            have fA := frame_kind kA v
+            obtain ⟨kP, sP, vP⟩ := syncAdded_pol_view h2 (applyMsgs v adds)
+            have fP := frame_kind kP (applyMsgs v adds)
+            obtain ⟨kF, sF, vF⟩ := syncAdded_prof_view h3 (applyMsgs (applyMsgs v adds) polMsgs)
+            have fF := frame_kind kF (applyMsgs (applyMsgs v adds) polMsgs)
+            obtain ⟨nP, oP, _⟩ := syncRemovedLoop_spec h4
+            obtain ⟨nF, oF, _⟩ := syncRemovedLoop_spec h5
+            have kE : ∀ m ∈ [Msg.epUpd w e], m.kind = .ep := by intro m hm; simp at hm; subst hm; rfl
+            simp only [applyMsgs_append]
+            generalize hv3 : applyMsgs (applyMsgs (applyMsgs v adds) polMsgs) profMsgs = v3 at *
+            have fE := frame_kind kE v3
+            generalize hv4 : applyMsgs v3 [Msg.epUpd w e] = v4 at *
+            have fRP := frame_kind (kind_map_polRm oldP) v4
+            have vRP := polRm_view oldP v4
+            generalize hv5 : applyMsgs v4 (oldP.map Msg.polRm) = v5 at *
+            have fRF := frame_kind (kind_map_profRm oldF) v5
+            have vRF := profRm_view oldF v5
+            generalize hv6 : applyMsgs v5 (oldF.map Msg.profRm) = v6 at *
+            have fD := frame_kind kD v6
+            have vD6 := vD v6
+            generalize hv7 : applyMsgs v6 dels = v7 at *
+            have hsp : ei1.syncedPol = ei.syncedPol := ho1.2.2.2.1
+            have hsf : ei1.syncedProf = ei.syncedProf := ho1.2.2.2.2
+            refine ⟨⟨fun id => ?_, fun id => ?_, fun x => ?_⟩, ⟨fun id => ?_, fun id => ?_, fun x => ?_⟩, ?_, ?_, ?_, ?_, xIP⟩
+            · -- pols
+              rw [fD.2.1 (by decide), fRF.2.1 (by decide), vRP id, fE.2.1 (by decide), fF.2.1 (by decide), vP id,
+                fA.2.1 (by decide), hc.pols id]
+              have := sP id; have := nP id; have := oP id
+              simp only [List.not_mem_nil, false_or, hsp] at *
+              by_cases a1 : id ∈ e.pols <;> by_cases a2 : id ∈ ei.syncedPol <;> simp_all
+            · -- profs
+              rw [fD.2.2.1 (by decide), vRF id, fRP.2.2.1 (by decide), fE.2.2.1 (by decide), vF id,
+                fP.2.2.1 (by decide), fA.2.2.1 (by decide), hc.profs id]
+              have := sF id; have := nF id; have := oF id
+              simp only [List.not_mem_nil, false_or, hsf] at *
+              by_cases a1 : id ∈ e.profs <;> by_cases a2 : id ∈ ei.syncedProf <;> simp_all
+            · -- ipsets
+              rw [vD6 x, fRF.2.2.2.1 (by decide), fRP.2.2.2.1 (by decide), fE.2.2.2.1 (by decide),
+                fF.2.2.2.1 (by decide), fP.2.2.2.1 (by decide), vA x, hc.ipsets x]
+              by_cases a1 : x ∈ ei1.syncedIP <;> by_cases a2 : x ∈ ei.syncedIP <;> simp_all
+            · simp only [ho1.2.1, he, epPols]; rw [nP id]; simp
+            · simp only [ho1.2.1, he, epProfs]; rw [nF id]; simp
+            · simp only [ho1.2.1]; exact eIP x
+            · rw [fD.1 (by decide), fRF.1 (by decide), fRP.1 (by decide), ← hv4]; rfl
+            · rw [fD.2.2.2.2.1 (by decide), fRF.2.2.2.2.1 (by decide), fRP.2.2.2.2.1 (by decide), fE.2.2.2.2.1 (by decide),
+                fF.2.2.2.2.1 (by decide), fP.2.2.2.2.1 (by decide), fA.2.2.2.2.1 (by decide)]
+            · rw [fD.2.2.2.2.2.1 (by decide), fRF.2.2.2.2.2.1 (by decide), fRP.2.2.2.2.2.1 (by decide), fE.2.2.2.2.2.1 (by decide),
+                fF.2.2.2.2.2.1 (by decide), fP.2.2.2.2.2.1 (by decide), fA.2.2.2.2.2.1 (by decide)]
+            · rw [fD.2.2.2.2.2.2 (by decide), fRF.2.2.2.2.2.2 (by decide), fRP.2.2.2.2.2.2 (by decide), fE.2.2.2.2.2.2 (by decide),
+                fF.2.2.2.2.2.2 (by decide), fP.2.2.2.2.2.2 (by decide), fA.2.2.2.2.2.2 (by decide)]
+
+/-! ### service accounts, namespaces, stream extraction -/
+
+theorem saUpd_view (m : AMap Nat) (hn : m.NodupKeys) (v : View) :
+    (∀ x ∈ m.map (fun kv => Msg.saUpd kv.1 kv.2), x.kind = .sa) ∧
+    ∀ id, (applyMsgs v (m.map (fun kv => Msg.saUpd kv.1 kv.2))).sas id = match m.get id with | some x => some x | none => v.sas id := by
+  induction m generalizing v with
+  | nil => simp [applyMsgs, AMap.get]
+  | cons kv r ih =>
+    obtain ⟨k, x⟩ := kv
+    simp only [AMap.NodupKeys, List.map_cons, List.nodup_cons, List.mem_map, not_exists, not_and] at hn
+    obtain ⟨a, b⟩ := ih hn.2 (applyMsg v (Msg.saUpd k x))
+    refine ⟨?_, fun id => ?_⟩
+    · intro y hy
+      simp only [List.map_cons, List.mem_cons] at hy
+      rcases hy with rfl | hy
+      · rfl
+      · exact a y hy
+    · simp only [List.map_cons, applyMsgs_cons]
+      rw [b id]
+      by_cases hk : k = id
+      · subst hk
+        have : AMap.get r k = none := by
+          cases hg : AMap.get r k with
+          | none => rfl
+          | some y => exact absurd rfl (hn.1 (k, y) (AMap.mem_of_get hg))
+        simp [AMap.get, this, applyMsg, upd]
+      · have hk' : ¬ id = k := fun e => hk e.symm
+        simp [AMap.get, hk, hk', applyMsg, upd]
+
+theorem nsUpd_view (m : AMap Nat) (hn : m.NodupKeys) (v : View) :
+    (∀ x ∈ m.map (fun kv => Msg.nsUpd kv.1 kv.2), x.kind = .ns) ∧
+    ∀ id, (applyMsgs v (m.map (fun kv => Msg.nsUpd kv.1 kv.2))).nss id = match m.get id with | some x => some x | none => v.nss id := by
+  induction m generalizing v with
+  | nil => simp [applyMsgs, AMap.get]
+  | cons kv r ih =>
+    obtain ⟨k, x⟩ := kv
+    simp only [AMap.NodupKeys, List.map_cons, List.nodup_cons, List.mem_map, not_exists, not_and] at hn
+    obtain ⟨a, b⟩ := ih hn.2 (applyMsg v (Msg.nsUpd k x))
+    refine ⟨?_, fun id => ?_⟩
+    · intro y hy
+      simp only [List.map_cons, List.mem_cons] at hy
+      rcases hy with rfl | hy
+      · rfl
+      · exact a y hy
+    · simp only [List.map_cons, applyMsgs_cons]
+      rw [b id]
+      by_cases hk : k = id
+      · subst hk
+        have : AMap.get r k = none := by
+          cases hg : AMap.get r k with
+          | none => rfl
+          | some y => exact absurd rfl (hn.1 (k, y) (AMap.mem_of_get hg))
+        simp [AMap.get, this, applyMsg, upd]
+      · have hk' : ¬ id = k := fun e => hk e.symm
+        simp [AMap.get, hk, hk', applyMsg, upd]
+
+theorem msgsOf_append (a b : List Ev) (c : Nat) : msgsOf (a ++ b) c = msgsOf a c ++ msgsOf b c := by
+  simp [msgsOf, List.filterMap_append]
+
+theorem msgsOf_tag (c : Nat) (ms : List Msg) : msgsOf (tag c ms) c = ms := by
+  induction ms with
+  | nil => rfl
+  | cons m ms ih => simp only [tag, List.map_cons, msgsOf, List.filterMap_cons] at ih ⊢; simp [ih]
+
+theorem msgsOf_tag_ne {c c' : Nat} (h : c' ≠ c) (ms : List Msg) : msgsOf (tag c' ms) c = [] := by
+  induction ms with
+  | nil => rfl
+  | cons m ms ih => simp only [tag, List.map_cons, msgsOf, List.filterMap_cons] at ih ⊢; simp [ih, h]
+
+theorem msgsOf_closeEv (o : Option Nat) (c : Nat) : msgsOf (closeEv o) c = [] := by
+  cases o with
+  | none => rfl
+  | some oc => by_cases h : oc = c <;> simp [closeEv, msgsOf, h]
+
+/-- Core + Exact + the other components give the property's `Complete`. -/
+theorem complete_of {p : Proc} {w : Nat} {ei : EpInfo} {v : View} (hc : Core p ei v) (hx : Exact p ei)
+    (hep : v.ep = ei.ep.map (fun e => (w, e))) (hsa : ∀ id, v.sas id = p.sas.get id) (hns : ∀ id, v.nss id = p.nss.get id)
+    (hsy : v.inSync = p.inSync) (hex : ∀ x, x ∈ ei.syncedIP → (p.ipsets.get x).isSome) :
+    Complete p w ei.ep v := by
+  refine ⟨hep, fun id => ?_, fun id => ?_, fun x hn => ?_, fun x hn => ?_, hsa, hns, hsy⟩
+  · rw [hc.pols id]; simp only [hx.pols id]
+  · rw [hc.profs id]; simp only [hx.profs id]
+  · have hm := (hx.ipsets x).2 hn
+    have := hex x hm
+    cases hg : p.ipsets.get x with
+    | none => simp [hg] at this
+    | some ms =>
+      refine ⟨ms, rfl, setOf ms, ?_, fun m => rfl⟩
+      rw [hc.ipsets x]; simp [hm, hg]
+  · have hm : x ∉ ei.syncedIP := fun h => hn ((hx.ipsets x).1 h)
+    rw [hc.ipsets x]; simp [hm]
 
 end CalicoVerif.C31
